@@ -17,6 +17,7 @@ import ThriftVerif.Generated.C11Schema
   pca <hex>                          ParseCompactArguments + Pack
   exe <run> <decoded> <err> <feedok> <stderr> <nwarn> <ncontents>   executeOutcome
   gen <nlanguages> <nplugins>        plugin executions per Generate call
+  par <nlanguages> <nplugins> <hex -p args…>   PluginParameters seen by each execution
 -/
 namespace Driver.C11
 open Wire Gen Gen.Std Plugin Driver.GenVL
@@ -245,6 +246,17 @@ def handleLine (last : Bytes) (line : String) : Bytes × String :=
     | some s => doPca s
     | none => "bad-op"
   | "exe" :: rest => doExe rest
+  | "par" :: nl :: _ :: args =>
+    match nl.toNat?, args.mapM VL.hexDecode with
+    | some nl, some args =>
+      match args.mapM parseCompact with
+      | none => "err"
+      | some ds =>
+        let calls := paramsSeenCalls (ds.map (·.2)) nl [[120]]   -- a stale value the model must overwrite
+        let one (ps : List Bytes) : String :=
+          if ps.isEmpty then "0" else s!"{ps.length} {hexList ps}"
+        "ok " ++ " | ".intercalate (calls.flatten.map one)
+    | _, _ => "bad-op"
   | ["gen", nl, np] =>
     match nl.toNat?, np.toNat? with
     | some nl, some np =>
